@@ -51,6 +51,14 @@ var reorderProfile = func() Profile {
 	return p
 }()
 
+// reorderPlainProfile: Reorder'd providers among plain ones (no Cacheable family: what is Desired / auto-desired is
+// then the same before and after classification), for the Desired -> Required pairs
+var reorderPlainProfile = func() Profile {
+	p := plainProfile
+	p.PReorder, p.PIface = 0.3, 0
+	return p
+}()
+
 // clusterProfile: Cluster groups among Shun'd / Desired / unsatisfiable providers (all-or-none inclusion)
 var clusterProfile = func() Profile {
 	p := plainProfile
